@@ -1,4 +1,5 @@
 import Uds.Lemmas.Loops
+import Uds.Lemmas.Py
 /-
   C02 — well-formed positive responses decode to exactly the values the server encoded.
   `interpret (Spec.encode v) = v` for arbitrary record lists (by induction), field values and widths.
@@ -73,9 +74,352 @@ theorem xfer_roundtrip (w v : Nat) (hw : 1 ≤ w ∧ w ≤ 8) (hv : v < 256 ^ w)
     simp [List.take_of_length_le, fromBE_toBE_of_lt hv]
   simp only [hg1, hi, hb, hsh, hg2, hg3, hr, bind, Except.bind, pure, Except.pure]
 
+/-! ### ReadDataByIdentifier: any number of records -/
+
+def DidsOk (cfg : DidCfg) (tol : Bool) : List (Nat × Bytes) → Prop
+  | [] => True
+  | (d, v) :: rest => d < 65536 ∧ (d ≠ 0 ∨ cfg.entries.any (·.1 == 0) = true ∨ tol = false) ∧
+      (∃ len, fetchCodec cfg d = .ok len ∧ (∀ n, len = some n → v.length = n) ∧ (len = none → rest = [])) ∧ DidsOk cfg tol rest
+
+theorem dictSet_new (acc : List (Nat × Bytes)) (d : Nat) (v : Bytes) (h : ∀ e ∈ acc, e.1 ≠ d) : dictSet acc d v = acc ++ [(d, v)] := by
+  unfold dictSet
+  have : acc.any (·.1 == d) = false := by
+    rw [List.any_eq_false]; intro e he; simpa using h e he
+  simp [this]
+
+theorem rdbi_loop_roundtrip (cfg : DidCfg) (tol : Bool) (l acc : List (Nat × Bytes)) (h : DidsOk cfg tol l)
+    (hnd : ((acc ++ l).map (·.1)).Nodup) : rdbiLoop cfg tol (encDids l) acc = .ok (acc ++ l) := by
+  induction l generalizing acc with
+  | nil => rw [rdbiLoop]; simp [encDids, pure, Except.pure]
+  | cons e rest ih =>
+    obtain ⟨d, v⟩ := e
+    obtain ⟨hd, hz, ⟨len, hf, hl, hlast⟩, hrest⟩ := h
+    have hlen : (encDids ((d, v) :: rest)).length = 2 + (v ++ encDids rest).length := by simp [encDids]
+    have ht : (encDids ((d, v) :: rest)).take 2 = toBE 2 d := by
+      simp only [encDids, List.append_assoc]
+      rw [List.take_append_of_le_length (by simp)]; exact List.take_of_length_le (by simp)
+    have hdr : (encDids ((d, v) :: rest)).drop 2 = v ++ encDids rest := by
+      simp only [encDids, List.append_assoc]
+      rw [List.drop_append_of_le_length (by simp)]; simp [List.drop_of_length_le]
+    have hu : unpackBE 2 (toBE 2 d) = .ok d := by
+      simp [unpackBE, fromBE_toBE_of_lt (show d < 256 ^ 2 by omega), pure, Except.pure]
+    have hcond : (d == 0 && !cfg.entries.any (·.1 == 0) && tol && allZero (encDids ((d, v) :: rest))) = false := by
+      rcases hz with hz | hz | hz
+      · have : (d == 0) = false := by simpa using hz
+        simp [this]
+      · simp [hz]
+      · simp [hz]
+    have hnew : ∀ e ∈ acc, e.1 ≠ d := by
+      intro e he heq
+      rw [List.map_append, List.map_cons] at hnd
+      have := List.nodup_append.1 hnd
+      exact this.2.2 e.1 (List.mem_map_of_mem he) d (by simp) heq
+    have hnd' : (((acc ++ [(d, v)]) ++ rest).map (·.1)).Nodup := by simpa using hnd
+    rw [rdbiLoop]
+    rw [dif_neg (by omega), dif_neg (by omega)]
+    simp only [ht, hu, bind, Except.bind, hcond, Bool.false_eq_true, if_false, hf, hdr]
+    cases len with
+    | some n =>
+      have hvn := hl n rfl
+      have h1 : ¬ (v ++ encDids rest).length < n := by simp; omega
+      have h2 : (v ++ encDids rest).take n = v := by rw [← hvn]; simp
+      have h3 : (v ++ encDids rest).drop n = encDids rest := by rw [← hvn]; simp
+      simp only [h1, if_false, h2, h3, dictSet_new acc d v hnew]
+      rw [ih _ hrest hnd']; simp
+    | none =>
+      have := hlast rfl
+      subst this
+      simp only [encDids, List.append_nil, Nat.lt_irrefl, if_false, List.drop_length, List.take_length, dictSet_new acc d v hnew]
+      rw [rdbiLoop]; simp [pure, Except.pure]
+
+theorem didsOk_found (cfg : DidCfg) (tol : Bool) (l : List (Nat × Bytes)) (h : DidsOk cfg tol l) : ∀ e ∈ l, (cfg.find e.1).isSome = true := by
+  induction l with
+  | nil => intro e he; cases he
+  | cons x rest ih =>
+    obtain ⟨d, v⟩ := x
+    obtain ⟨_, _, ⟨len, hf, _, _⟩, hrest⟩ := h
+    intro e he
+    rcases List.mem_cons.1 he with rfl | he
+    · unfold fetchCodec at hf
+      cases hc : cfg.find d with
+      | none => simp [hc] at hf
+      | some _ => rfl
+    · exact ih hrest e he
+
+/-- **the records of a ReadDataByIdentifier reply are returned as encoded, in order, whatever their number** (fixed-length codecs, the last
+    one may read all remaining data) -/
+theorem rdbi_roundtrip (cfg : DidCfg) (tol : Bool) (l : List (Nat × Bytes)) (h : DidsOk cfg tol l) (hnd : (l.map (·.1)).Nodup) :
+    rdbiClient cfg tol (l.map (·.1)) (encDids l) = .ok (.rdbi l) := by
+  have hfound := didsOk_found cfg tol l h
+  have hcfg : checkDidConfig (some cfg) (l.map (·.1)) = .ok cfg := by
+    have : (l.map (·.1)).all (fun d => (cfg.find d).isSome) = true := by
+      rw [List.all_eq_true]; intro d hd
+      obtain ⟨e, he, rfl⟩ := List.mem_map.1 hd
+      exact hfound e he
+    simp [checkDidConfig, this, pure, Except.pure]
+  have hloop := rdbi_loop_roundtrip cfg tol l [] h (by simpa using hnd)
+  have hi : rdbiInterpret cfg tol (l.map (·.1)) (encDids l) = .ok (.rdbi l) := by
+    simp [rdbiInterpret, hcfg, hloop, bind, Except.bind, pure, Except.pure]
+  unfold rdbiClient
+  rw [hi]
+  have h1 : (l.any fun v => !(l.map (·.1)).contains v.1) = false := by
+    rw [List.any_eq_false]; intro e he
+    have : (l.map (·.1)).contains e.1 = true := by
+      rw [List.contains_iff_mem]; exact List.mem_map_of_mem he
+    rw [this]; decide
+  have h2 : ((l.map (·.1)).any fun x => !l.any (·.1 == x)) = false := by
+    rw [List.any_eq_false]; intro d hd
+    obtain ⟨e, he, rfl⟩ := List.mem_map.1 hd
+    have : l.any (·.1 == e.1) = true := by
+      rw [List.any_eq_true]; exact ⟨e, he, by simp⟩
+    simp [this]
+  simp only [h1, h2, Bool.false_eq_true, if_false, pure, Except.pure]
+
+/-! ### extended data records of one DTC (sub-functions 06, 10, 19) -/
+
+def ExtOk (size : Nat) (e : Nat × Bytes) : Prop := 0 < e.1 ∧ e.1 < 256 ∧ e.2.length = size
+
+theorem ext_loop_roundtrip (tol : Bool) (size : Nat) (l : List (Nat × Bytes)) (acc : List (Nat × Bytes)) (h : ∀ e ∈ l, ExtOk size e) :
+    extByDtcLoop tol size (encExts l) acc = .ok (acc ++ l) := by
+  induction l generalizing acc with
+  | nil =>
+    rw [extByDtcLoop]
+    simp [encExts, pure, Except.pure]
+  | cons e rest ih =>
+    obtain ⟨n, b⟩ := e
+    obtain ⟨h0, h1, h2⟩ := h (n, b) (by simp)
+    simp only at h0 h1 h2
+    rw [extByDtcLoop]
+    have hne : ¬ (encExts ((n, b) :: rest)).length = 0 := by simp [encExts]
+    rw [dif_neg hne]
+    have hi : idx (encExts ((n, b) :: rest)) 0 = .ok (UInt8.ofNat n) := by simp [encExts, idx, pure, Except.pure]
+    have hn : (UInt8.ofNat n).toNat = n := toNat_ofNat_lt h1
+    have hz : (n == 0) = false := by simpa using (show n ≠ 0 by omega)
+    have hd : (encExts ((n, b) :: rest)).drop 1 = b ++ encExts rest := by simp [encExts]
+    simp only [hi, bind, Except.bind, hn, hz, Bool.false_eq_true, if_false, hd]
+    have hlen : ¬ (b ++ encExts rest).length < size := by simp; omega
+    rw [if_neg hlen]
+    have ht : (b ++ encExts rest).take size = b := by rw [← h2]; simp
+    have hdr : (b ++ encExts rest).drop size = encExts rest := by rw [← h2]; simp
+    rw [ht, hdr, ih _ (fun e he => h e (by simp [he]))]
+    simp only [List.append_assoc, List.singleton_append]
+
+/-! ### Authentication: length-prefixed parameters -/
+
+theorem extractLen16_enc (b rest : Bytes) (h : b.length < 65536) : extractLen16 (encLen16 b ++ rest) = .ok (b, rest) := by
+  unfold extractLen16 encLen16
+  have hl : ¬ (toBE 2 b.length ++ b ++ rest).length < 2 := by simp
+  rw [if_neg hl]
+  have ht : (toBE 2 b.length ++ b ++ rest).take 2 = toBE 2 b.length := by
+    rw [List.append_assoc, List.take_append_of_le_length (by simp)]; exact List.take_of_length_le (by simp)
+  have hu : unpackBE 2 (toBE 2 b.length) = .ok b.length := by
+    simp [unpackBE, fromBE_toBE_of_lt (show b.length < 256 ^ 2 by omega), pure, Except.pure]
+  simp only [ht, hu, bind, Except.bind]
+  have hge : (toBE 2 b.length ++ b ++ rest).length ≥ 2 + b.length := by simp
+  rw [if_pos hge]
+  have hd2 : (toBE 2 b.length ++ b ++ rest).drop 2 = b ++ rest := by
+    rw [List.append_assoc, List.drop_append_of_le_length (by simp)]; simp [List.drop_of_length_le]
+  have hd : (toBE 2 b.length ++ b ++ rest).drop (2 + b.length) = rest := by
+    rw [← List.drop_drop, hd2]; simp
+  rw [hd2, hd]
+  simp only [List.take_left', pure, Except.pure]
+
+theorem extractFields_enc (fields : List (String × Bytes)) (rest : Bytes) (h : ∀ f ∈ fields, f.2.length < 65536) :
+    extractFields (fields.map (·.1)) (encLen16s fields ++ rest) = .ok (fields, rest) := by
+  induction fields with
+  | nil => simp [extractFields, encLen16s, pure, Except.pure]
+  | cons f fs ih =>
+    obtain ⟨n, b⟩ := f
+    simp only [List.map_cons, extractFields, encLen16s, List.append_assoc]
+    rw [extractLen16_enc b _ (h (n, b) (by simp))]
+    simp only [bind, Except.bind]
+    rw [ih (fun f hf => h f (by simp [hf]))]
+    simp [pure, Except.pure]
+
+def authNames (t : Nat) : List String :=
+  if t == 1 then ["challengeServer", "ephemeralPublicKeyServer"]
+  else if t == 2 then ["challengeServer", "certificateServer", "proofOfOwnershipServer", "ephemeralPublicKeyServer"]
+  else if t == 3 then ["sessionKeyInfo"]
+  else if t == 5 then ["challengeServer", "neededAdditionalParameter"]
+  else if t == 7 then ["proofOfOwnershipServer", "sessionKeyInfo"]
+  else if t == 6 then ["sessionKeyInfo"]
+  else []
+
+theorem idx_cons0 (b : UInt8) (l : Bytes) : idx (b :: l) 0 = .ok b := by simp [idx, pure, Except.pure]
+theorem idx_cons1 (a b : UInt8) (l : Bytes) : idx (a :: b :: l) 1 = .ok b := by simp [idx, pure, Except.pure]
+
+/-- tasks 1, 2, 3: only length-prefixed parameters -/
+theorem auth_roundtrip_plain (t rv : UInt8) (fields : List (String × Bytes)) (ht : t.toNat = 1 ∨ t.toNat = 2 ∨ t.toNat = 3)
+    (hn : fields.map (·.1) = authNames t.toNat) (hl : ∀ f ∈ fields, f.2.length < 65536) :
+    authInterpret (t :: rv :: encLen16s fields) = .ok (.auth t.toNat rv.toNat fields) := by
+  have hx := extractFields_enc fields [] hl
+  rw [List.append_nil, hn] at hx
+  have hf : authFields t.toNat (encLen16s fields) = .ok (fields, []) := by
+    unfold authFields
+    rcases ht with h | h | h <;> simp [h, authNames] at hx ⊢ <;> exact hx
+  simp only [authInterpret, bind_ok, guardPy_ok, pure_ok]
+  exact ⟨(), by simp, t, idx_cons0 _ _, rv, idx_cons1 _ _ _, (fields, []), by simpa using hf, (), by simp, rfl⟩
+
+/-- tasks 5, 6, 7: a 16-byte algorithmIndicator first -/
+theorem auth_roundtrip_algo (t rv : UInt8) (algo : Bytes) (fields : List (String × Bytes)) (ht : t.toNat = 5 ∨ t.toNat = 6 ∨ t.toNat = 7)
+    (ha : algo.length = 16) (hn : fields.map (·.1) = authNames t.toNat) (hl : ∀ f ∈ fields, f.2.length < 65536) :
+    authInterpret (t :: rv :: (algo ++ encLen16s fields)) = .ok (.auth t.toNat rv.toNat (("algorithmIndicator", algo) :: fields)) := by
+  have hx := extractFields_enc fields [] hl
+  rw [List.append_nil, hn] at hx
+  have hdr : (algo ++ encLen16s fields).drop 16 = encLen16s fields := by rw [← ha]; simp
+  have htk : (algo ++ encLen16s fields).take 16 = algo := by rw [← ha]; simp
+  have hf : authFields t.toNat (algo ++ encLen16s fields) = .ok (("algorithmIndicator", algo) :: fields, []) := by
+    have hnot : ¬ (t.toNat == 0 || t.toNat == 4 || t.toNat == 8) = true := by rcases ht with h | h | h <;> simp [h]
+    have h1 : ¬ (t.toNat == 1) = true := by rcases ht with h | h | h <;> simp [h]
+    have h2 : ¬ (t.toNat == 2) = true := by rcases ht with h | h | h <;> simp [h]
+    have h3 : ¬ (t.toNat == 3) = true := by rcases ht with h | h | h <;> simp [h]
+    have h567 : (t.toNat == 5 || t.toNat == 6 || t.toNat == 7) = true := by rcases ht with h | h | h <;> simp [h]
+    have hnames : (if (t.toNat == 5) = true then ["challengeServer", "neededAdditionalParameter"]
+        else if (t.toNat == 7) = true then ["proofOfOwnershipServer", "sessionKeyInfo"] else ["sessionKeyInfo"]) = authNames t.toNat := by
+      rcases ht with h | h | h <;> simp [h, authNames]
+    unfold authFields
+    rw [if_neg hnot, if_neg h1, if_neg h2, if_neg h3, if_pos h567]
+    simp only [bind_ok, guardPy_ok, pure_ok, hdr, htk, hnames]
+    exact ⟨(), by simp; omega, (fields, []), hx, rfl⟩
+  simp only [authInterpret, bind_ok, guardPy_ok, pure_ok]
+  exact ⟨(), by simp, t, idx_cons0 _ _, rv, idx_cons1 _ _ _, (("algorithmIndicator", algo) :: fields, []), by simpa using hf, (), by simp, rfl⟩
+
+theorem ext_roundtrip (c : DtcCfg) (sf : Nat) (e st : UInt8) (id size : Nat) (l : List (Nat × Bytes)) (hms : hasMemSel sf = false)
+    (hid : id < 2 ^ 24) (hcfg : checkExtSize c.ext = .ok ()) (hsz : extSizeFor c.ext id = .ok size) (hl : ∀ x ∈ l, ExtOk size x) :
+    extByDtcInterpret c sf (e :: (toBE 3 id ++ st :: encExts l)) =
+      .ok { sfEcho := e.toNat, count := 1, dtcs := [{ id := id, status := st.toNat, ext := l }] } := by
+  have hdrop1 : (e :: (toBE 3 id ++ st :: encExts l)).drop 1 = toBE 3 id ++ st :: encExts l := rfl
+  have hbe : be3 (toBE 3 id ++ st :: encExts l) = id := be3_toBE id _ hid
+  have hst : idx (e :: (toBE 3 id ++ st :: encExts l)) 4 = .ok st := by
+    simp [idx, toBE, pure, Except.pure]
+  have hd5 : (e :: (toBE 3 id ++ st :: encExts l)).drop 5 = encExts l := by simp [toBE]
+  simp only [extByDtcInterpret, hms, Bool.false_eq_true, if_false, bind_ok, guardPy_ok, pure_ok, optByte]
+  refine ⟨e, idx_cons0 _ _, (), hcfg, (), (by simp only [List.length_cons, List.length_append, toBE_length]; simp; omega), none, rfl, st, hst, size, by rw [hdrop1, hbe]; exact hsz, l, ?_, ?_⟩
+  · rw [hd5]; simpa using ext_loop_roundtrip c.tol size l [] hl
+  · rw [hdrop1, hbe]
+
+theorem ext_roundtrip_memsel (c : DtcCfg) (sf : Nat) (e ms st : UInt8) (id size : Nat) (l : List (Nat × Bytes)) (hms : hasMemSel sf = true)
+    (hid : id < 2 ^ 24) (hcfg : checkExtSize c.ext = .ok ()) (hsz : extSizeFor c.ext id = .ok size) (hl : ∀ x ∈ l, ExtOk size x) :
+    extByDtcInterpret c sf (e :: ms :: (toBE 3 id ++ st :: encExts l)) =
+      .ok { sfEcho := e.toNat, memSel := some ms.toNat, count := 1, dtcs := [{ id := id, status := st.toNat, ext := l }] } := by
+  have hdrop2 : (e :: ms :: (toBE 3 id ++ st :: encExts l)).drop 2 = toBE 3 id ++ st :: encExts l := rfl
+  have hbe : be3 (toBE 3 id ++ st :: encExts l) = id := be3_toBE id _ hid
+  have hst : idx (e :: ms :: (toBE 3 id ++ st :: encExts l)) 5 = .ok st := by
+    simp [idx, toBE, pure, Except.pure]
+  have hd6 : (e :: ms :: (toBE 3 id ++ st :: encExts l)).drop 6 = encExts l := by simp [toBE]
+  simp only [extByDtcInterpret, hms, if_true, bind_ok, guardPy_ok, pure_ok, optByte]
+  refine ⟨e, idx_cons0 _ _, (), hcfg, (), (by simp only [List.length_cons, List.length_append, toBE_length]; simp; omega), some ms.toNat, ⟨ms, idx_cons1 _ _ _, rfl⟩, st, hst, size, by rw [hdrop2, hbe]; exact hsz, l, ?_, ?_⟩
+  · rw [hd6]; simpa using ext_loop_roundtrip c.tol size l [] hl
+  · rw [hdrop2, hbe]
+
+/-! ### WWH-OBD records (sub-functions 42, 55) and fault-detection counters (14) -/
+
+def WwhOk (r : DtcRec) : Prop :=
+  r.id < 2 ^ 24 ∧ r.status < 256 ∧ r.severity < 256 ∧ (Severity.ofByte r.severity).toByte = r.severity ∧
+  r.funit = none ∧ r.fault = none ∧ r.snaps = [] ∧ r.ext = []
+
+theorem encWwh_length (r : DtcRec) : (encWwh r).length = 5 := by simp [encWwh]
+
+theorem wwhLoop_cons (tol ign : Bool) (r : DtcRec) (tail : Bytes) (acc : List DtcRec) (hr : WwhOk r)
+    (hnz : (allZero (encWwh r) && ign) = false) :
+    wwhLoop tol ign (encWwh r ++ tail) acc = wwhLoop tol ign tail (acc ++ [r]) := by
+  obtain ⟨hid, hst, hsev, hnorm, hfu, hf, hs, he⟩ := hr
+  rw [wwhLoop]
+  have hl := encWwh_length r
+  have h0 : ¬ (encWwh r ++ tail).length = 0 := by simp [hl]
+  have h1 : ¬ (encWwh r ++ tail).length < 5 := by simp [hl]
+  have ht : (encWwh r ++ tail).take 5 = encWwh r := by
+    rw [List.take_append_of_le_length (by omega), List.take_of_length_le (by omega)]
+  have hdp : (encWwh r ++ tail).drop 5 = tail := by
+    rw [List.drop_append_of_le_length (by omega), List.drop_of_length_le (by omega)]; simp
+  have i0 : idx (encWwh r) 0 = .ok (UInt8.ofNat r.severity) := by simp [encWwh, idx, pure, Except.pure]
+  have i4 : idx (encWwh r) 4 = .ok (UInt8.ofNat r.status) := by simp [encWwh, idx, pure, Except.pure]
+  have hb : be3 ((encWwh r).drop 1) = r.id := by
+    simp only [encWwh, List.cons_append, List.nil_append, List.drop_succ_cons, List.drop_zero]
+    exact be3_toBE _ _ hid
+  simp only [dif_neg h0, dif_neg h1, ht, hdp, hnz, Bool.false_eq_true, if_false, i0, i4, hb, bind, Except.bind,
+    toNat_ofNat_lt hst, toNat_ofNat_lt hsev, hnorm]
+  congr 2
+  cases r; simp_all
+
+def wwhNonZero (ign : Bool) (r : DtcRec) : Prop := (allZero (encWwh r) && ign) = false
+
+theorem wwh_loop_roundtrip (tol ign : Bool) (rs : List DtcRec) (acc : List DtcRec) (hr : ∀ r ∈ rs, WwhOk r ∧ wwhNonZero ign r) :
+    wwhLoop tol ign (encWwhs rs) acc = .ok (acc ++ rs) := by
+  induction rs generalizing acc with
+  | nil => rw [wwhLoop]; simp [encWwhs, pure, Except.pure]
+  | cons r rest ih =>
+    simp only [encWwhs]
+    rw [wwhLoop_cons _ _ _ _ _ (hr r (by simp)).1 (hr r (by simp)).2, ih _ (fun x hx => hr x (by simp [hx]))]
+    simp
+
+def FaultOk (r : DtcRec) : Prop :=
+  r.id < 2 ^ 24 ∧ (∃ f, r.fault = some f ∧ f < 256) ∧ r.status = 0 ∧ r.severity = 0 ∧ r.funit = none ∧ r.snaps = [] ∧ r.ext = []
+
+theorem encFault_length (r : DtcRec) : (encFault r).length = 4 := by simp [encFault]
+
+def faultNonZero (ign : Bool) (r : DtcRec) : Prop := (allZero (encFault r) && ign) = false
+
+theorem fault_loop_roundtrip (tol ign : Bool) (rs : List DtcRec) (acc : List DtcRec) (hr : ∀ r ∈ rs, FaultOk r ∧ faultNonZero ign r) :
+    g3Loop tol ign false (encFaults rs) acc = .ok (acc ++ rs) := by
+  induction rs generalizing acc with
+  | nil => rw [g3Loop]; simp [encFaults, pure, Except.pure]
+  | cons r rest ih =>
+    obtain ⟨⟨hid, ⟨f, hf, hf256⟩, hst, hsev, hfu, hs, he⟩, hnz⟩ := hr r (by simp)
+    simp only [encFaults]
+    rw [g3Loop]
+    have hl := encFault_length r
+    have h0 : ¬ (encFault r ++ encFaults rest).length = 0 := by simp [hl]
+    have h1 : ¬ (encFault r ++ encFaults rest).length < 4 := by simp [hl]
+    have ht : (encFault r ++ encFaults rest).take 4 = encFault r := by
+      rw [List.take_append_of_le_length (by omega), List.take_of_length_le (by omega)]
+    have hdp : (encFault r ++ encFaults rest).drop 4 = encFaults rest := by
+      rw [List.drop_append_of_le_length (by omega), List.drop_of_length_le (by omega)]; simp
+    have i3 : idx (encFault r) 3 = .ok (UInt8.ofNat f) := by simp [encFault, hf, idx, pure, Except.pure]
+    have hb : be3 (encFault r) = r.id := by simp only [encFault]; exact be3_toBE _ _ hid
+    unfold faultNonZero at hnz
+    simp only [dif_neg h0, dif_neg h1, ht, hdp, hnz, Bool.false_eq_true, if_false, i3, hb, bind, Except.bind, toNat_ofNat_lt hf256]
+    rw [ih _ (fun x hx => hr x (by simp [hx]))]
+    have : ({ id := r.id, fault := some f } : DtcRec) = r := by cases r; simp_all
+    rw [this]; simp
+
+theorem fault_roundtrip (c : DtcCfg) (e : UInt8) (rs : List DtcRec) (hr : ∀ r ∈ rs, FaultOk r ∧ faultNonZero c.ign r) :
+    g3Interpret c false (e :: encFaults rs) = .ok { sfEcho := e.toNat, count := rs.length, dtcs := rs } := by
+  simp only [g3Interpret, bind_ok, pure_ok]
+  refine ⟨e, idx_cons0 _ _, rs, ?_, rfl⟩
+  simpa using fault_loop_roundtrip c.tol c.ign rs [] hr
+
+/-- sub-function 0x55 (no severity availability mask) -/
+theorem wwh_perm_roundtrip (c : DtcCfg) (e fg av fmt : UInt8) (rs : List DtcRec) (hfg : fg.toNat ≤ 0xFE) (hfmt : fmt.toNat = 4 ∨ fmt.toNat = 2)
+    (hr : ∀ r ∈ rs, WwhOk r ∧ wwhNonZero c.ign r) :
+    wwhInterpret c false (e :: fg :: av :: fmt :: encWwhs rs) =
+      .ok { sfEcho := e.toNat, statusAvail := some av.toNat, sevAvail := none, format := some fmt.toNat, fgid := some fg.toNat, count := rs.length, dtcs := rs } := by
+  simp only [wwhInterpret, Bool.false_eq_true, if_false, bind_ok, guardPy_ok, pure_ok, optByte]
+  refine ⟨e, idx_cons0 _ _, (), by simp, fg, idx_cons1 _ _ _, av, by simp [idx, pure, Except.pure], none, rfl, fmt, by simp [idx, pure, Except.pure], (),
+    by simp; omega, (), by rcases hfmt with h | h <;> simp [h], rs, ?_, rfl⟩
+  simpa using wwh_loop_roundtrip c.tol c.ign rs [] hr
+
+/-- sub-function 0x42 (with the severity availability mask, of which the library keeps the three severity bits) -/
+theorem wwh_mask_roundtrip (c : DtcCfg) (e fg av sav fmt : UInt8) (rs : List DtcRec) (hfg : fg.toNat ≤ 0xFE) (hfmt : fmt.toNat = 4 ∨ fmt.toNat = 2)
+    (hr : ∀ r ∈ rs, WwhOk r ∧ wwhNonZero c.ign r) :
+    wwhInterpret c true (e :: fg :: av :: sav :: fmt :: encWwhs rs) =
+      .ok { sfEcho := e.toNat, statusAvail := some av.toNat, sevAvail := some (Severity.ofByte sav.toNat).toByte, format := some fmt.toNat,
+            fgid := some fg.toNat, count := rs.length, dtcs := rs } := by
+  simp only [wwhInterpret, if_true, bind_ok, guardPy_ok, pure_ok, optByte]
+  refine ⟨e, idx_cons0 _ _, (), by simp, fg, idx_cons1 _ _ _, av, by simp [idx, pure, Except.pure], some sav.toNat, ⟨sav, by simp [idx, pure, Except.pure], rfl⟩,
+    fmt, by simp [idx, pure, Except.pure], (), by simp; omega, (), by rcases hfmt with h | h <;> simp [h], rs, ?_, rfl⟩
+  simpa using wwh_loop_roundtrip c.tol c.ign rs [] hr
+
 /-! ### non-vacuity -/
 example : RecOk false { id := 0x123456, status := 0x20 } ∧ recNonZero false true { id := 0x123456, status := 0x20 } := by
   refine ⟨⟨by decide, by decide, rfl, rfl, rfl, by simp⟩, by unfold recNonZero; decide⟩
+example : DidsOk { entries := [(0x1234, some 2), (0xEEEE, none)] } true [(0x1234, [1, 2]), (0xEEEE, [9, 9, 9])] := by
+  refine ⟨by decide, Or.inl (by decide), ⟨some 2, rfl, ?_, ?_⟩, by decide, Or.inl (by decide), ⟨none, rfl, ?_, ?_⟩, trivial⟩
+  · intro n h; cases h; rfl
+  · intro h; cases h
+  · intro n h; cases h
+  · intro _; rfl
+example : ExtOk 2 (5, [0xAA, 0xBB]) := ⟨by decide, by decide, rfl⟩
 example : xferInterpret (encMaxLen 8 (2 ^ 64 - 1)) = .ok (.xfer (2 ^ 64 - 1)) := xfer_roundtrip 8 _ (by decide) (by decide)
 
 end Uds.Props.C02
